@@ -7,6 +7,7 @@ Props/C10Bn.lean — property C10, part 6 (extension): the magnetic part on the 
   T10b (exact, conditional)  `B_ab = B_ba` as soon as the two traces commute with the code's covariant
         derivative:  `γ^{ad} (D_c K)_da = D_c(Ktrace)` and `γ^{ce} (D_c K)_ed = (D_k K^k{}_d)`.
         The momentum constraint is NOT needed.
+  T10b′ (exact) `B_ab − B_ba` = Levi-Civita dual of the two commutation defects, for every operator.
   T10c (Layer B: consistency — additive Leibniz operator, i.e. the continuum limit)  the two trace
         identities hold for the code's Christoffel connection, so `B` is symmetric.
   T10d  the Leibniz hypothesis cannot be dropped: with a non-derivation `e.D` the code's `B` is not symmetric
@@ -54,6 +55,21 @@ theorem bweyl_n_sym_of_traces (e : Env K) (h2 : (2 : K) ≠ 0) (hγu : Symm e.ga
   rw [bweyl_n_form]
   exact bweylN_symm e _ e.gammaup3 e.gammadown3 _ _ _ h2 hγu hinv
     (fun c d a => s_covd_dd_symm e e.Kdown3 hK c d a) H1 H2
+
+/-- **T10b′** (exact, every operator) the antisymmetric part of the code's `B` is the Levi-Civita dual of the two
+commutation defects: `B_ab − B_ba = γ^{df} ε_{afb} [(D_d Ktrace − Σ_k (D_k K^k{}_d)) − (γ^{pq}(D_d K)_qp − γ^{ce}(D_c K)_ed)]`.
+(For the finite-difference operators this is the truncation-error term that the oracle watches converge to 0.) -/
+theorem bweyl_n_antisym_part (e : Env K) (h2 : (2 : K) ≠ 0) (hγu : Symm e.gammaup3)
+    (hinv : ∀ a b, ∑ c, e.gammadown3 a c * e.gammaup3 c b = if a = b then 1 else 0)
+    (hK : Symm e.Kdown3) (a b : Fin 3) :
+    bweyl_n_down3 e a b - bweyl_n_down3 e b a
+      = ∑ d, (∑ f, e.gammaup3 d f * levicivita_down3 e a f b)
+          * ((s_covd_scalar e e.Ktrace d - ∑ k, s_covd_ud e (Kmixed e) k k d)
+             - ((∑ p, ∑ q, e.gammaup3 p q * s_covd_dd e e.Kdown3 d q p)
+                - ∑ c, ∑ e', e.gammaup3 c e' * s_covd_dd e e.Kdown3 c e' d)) := by
+  rw [bweyl_n_form, lc_down3_eq]
+  exact bweylN_antisymm_part e _ e.gammaup3 e.gammadown3 _ _ _ h2 hγu hinv
+    (fun c d a => s_covd_dd_symm e e.Kdown3 hK c d a) a b
 
 /-- **T10c** (Layer B) for an additive Leibniz operator, the code's Christoffel connection of a symmetric γ
 with γ⁻¹γ = 1 (`MetricOK`), symmetric `K` and `Ktrace = γ^{ij}K_ij`: `B` is symmetric (and trace-free). -/
